@@ -82,6 +82,32 @@ func (h *c01Hist) free(i int) {
 	pr.was[off] |= 1
 }
 
+// refused issues a free that has to be refused - a frame that is free at the moment, or one no pool manages - as a
+// careless caller would. Whether and how it is refused is C03's business; here it is part of the history: what is
+// handed out afterwards must still be judged by the same reference, which the refused request does not change.
+func (h *c01Hist) refused(r *vlib.Rand) {
+	if len(h.m.Ranges) == 0 {
+		return
+	}
+	pr := &h.m.Ranges[r.Intn(len(h.m.Ranges))]
+	fr := pr.First + pr.N + uint64(r.Intn(3)) // past the pool
+	if pr.free > 0 && r.Intn(3) != 0 {
+		off := r.U64() % pr.N
+		for pr.st[off] != pmmvFree {
+			off = (off + 1) % pr.N
+		}
+		fr = pr.First + off // a frame that is free right now
+	} else if p2, _ := h.m.locate(fr); p2 != nil {
+		return // lands in the next pool: not a request that must be refused
+	}
+	if pv, _ := vlib.Protect(func() { _ = bitmapAllocator.FreeFrame(mm.Frame(fr)) }); pv != nil {
+		h.run.Count("refused_free_panicked(judged by C03)", 1)
+		h.dead = true
+		return
+	}
+	h.run.Count("refused_frees_in_history", 1)
+}
+
 func (h *c01Hist) drain() {
 	limit := h.m.RAM + 2
 	for n := uint64(0); n < limit && !h.dead; n++ {
@@ -222,6 +248,9 @@ func TestVerifC01(t *testing.T) {
 			case kind <= 1: // free-heavy mix
 				phaseNames = append(phaseNames, "free-heavy")
 				for k := 0; k < opBudget && !h.dead; k++ {
+					if hr.Intn(24) == 0 {
+						h.refused(hr)
+					}
 					if len(h.held) > 0 && hr.Intn(4) != 0 {
 						h.free(hr.Intn(len(h.held)))
 					} else {
@@ -231,6 +260,9 @@ func TestVerifC01(t *testing.T) {
 			case kind <= 3: // alloc-heavy mix
 				phaseNames = append(phaseNames, "alloc-heavy")
 				for k := 0; k < opBudget && !h.dead; k++ {
+					if hr.Intn(24) == 0 {
+						h.refused(hr)
+					}
 					if len(h.held) > 0 && hr.Intn(4) == 0 {
 						h.free(hr.Intn(len(h.held)))
 					} else {
@@ -245,6 +277,9 @@ func TestVerifC01(t *testing.T) {
 				}
 				for ; k > 0 && !h.dead && len(h.held) > 0; k-- {
 					h.free(hr.Intn(len(h.held)))
+					if hr.Intn(16) == 0 {
+						h.refused(hr)
+					}
 				}
 				if !h.dead {
 					h.drain()
